@@ -194,6 +194,7 @@ def run(P, R, tier):
     overwrite_rule(P, R, K)
     pending_rule(P, R)
     modifyone_rule(P, R)
+    saveends_rule(P, R)
 
 
 def writes_store(s):
@@ -758,3 +759,41 @@ def modifyone_rule(P, R):
             R.ok(RULE, inst, "range end = own number")
         else:
             R.violation(RULE, inst, "Rxn_read_modify does not reset the range end of the entry (read_raw may have read one from the MODIFY line)", file=g["file"], line=(a or both)[-1][1], function=g["q"])
+
+
+def saveends_rule(P, R):
+    """"SAVE writes the calculated result under the given numbers": saver() stores each kind under save.n_<kind>_user and copies it to
+    every number up to save.n_<kind>_user_end.  Code that redirects the saving (copy_use(-2) for the intermediate steps of a multi-step
+    calculation, the cell drivers) must set both ends together: a block that assigns n_<kind>_user and leaves n_<kind>_user_end as an
+    earlier SAVE or cell left it makes saver() copy the intermediate result over the entries -1, 0, ... up to that stale end."""
+    RULE = "C14.saveends"
+    R.rule(RULE, "every block that assigns save.n_<kind>_user also assigns save.n_<kind>_user_end", minimum=40)
+    import re as _re
+    n = 0
+    for k, g in sorted(P.functions.items(), key=lambda kv: kv[1]["q"]):
+        for comp in T.walk(g["body"]):
+            if comp[0] != "Compound":
+                continue
+            starts, ends = {}, set()
+            for st in comp[2]:
+                if not (T.is_node(st) and st[0] == "Bin" and st[2] == "="):
+                    continue
+                for y in T.walk(st):        # chained assignments too
+                    if y[0] == "Bin" and y[2] == "=":
+                        t = T.strip_casts(y[3])
+                        if T.is_node(t) and t[0] == "Member":
+                            m = _re.match(r"save::n_(\w+)_user(_end)?$", t[2])
+                            if m and m.group(2):
+                                ends.add(m.group(1))
+                            elif m:
+                                starts[m.group(1)] = y[1]
+            for kind, line in sorted(starts.items()):
+                n += 1
+                inst = "%s:%s@%d" % (g["q"].split("::")[-1], kind, line)
+                if kind in ends:
+                    R.ok(RULE, inst, "both ends set")
+                else:
+                    R.violation(RULE, inst, "save.n_%s_user is assigned at line %d without save.n_%s_user_end in the same block: saver() then copies the result up to the end an earlier "
+                                "SAVE or cell left there, over entries the calculation never names" % (kind, line, kind), file=g["file"], line=line, function=g["q"])
+    if n < 40:
+        R.anchor_missing(RULE, "only %d assignments of save.n_<kind>_user" % n)
